@@ -171,7 +171,9 @@ def check_case(case, res):
             mods['F1'] = {'fixed': True, 'rectangles': [vec(e) for e in fixed]}
         else:
             for i, e in enumerate(fixed):
-                mods[f'F{i + 1}'] = {'fixed': True, 'rectangles': [vec(e)]}
+                # (the keys of a mapping have no order: 'rectangles' before 'fixed' for every other module)
+                mods[f'F{i + 1}'] = {'fixed': True, 'rectangles': [vec(e)]} if (i + len(items)) % 2 == 0 else \
+                    {'rectangles': [vec(e)], 'fixed': True}
         # a soft companion module of the scale of the design (the netlist derives the tolerance from its smallest module)
         mods['S'] = {'area': 1 if not fam.startswith('BIG') else float(f(1)) ** 2}
         try:
@@ -321,6 +323,15 @@ def run_shard(shard, tier, res):
                 if k <= 2 and kinds[0] != 'dsp':
                     reset_frame_state()
                     check_case(dict(fam=fam, W=W, H=H, items=items, one_module=False, macro=True), res)
+                if k == 1:
+                    # the same rectangle twice under two different tags (a complete overlap): invalid
+                    for other in [t for t in ('#', 'dsp', 'bram') if t != kinds[0]]:
+                        if kinds[0] == 'fixed':
+                            continue
+                        for order in (0, 1):
+                            dup = [[list(rects[0]), kinds[0]], [list(rects[0]), other]]
+                            reset_frame_state()
+                            check_case(dict(fam=fam, W=W, H=H, items=(dup if order == 0 else dup[::-1]), one_module=False), res)
                 if k == 1 and kinds[0] != 'fixed':
                     reset_frame_state()
                     check_case(dict(fam=fam, W=W, H=H, items=items, one_module=False, terminals_only=True), res)
